@@ -133,6 +133,36 @@ def check(R):
             R.expect('P5', ra.fn, 'the single-segment test accounts for the segment header (as the sender\'s segmentation does)',
                      any(x.endswith(('BtpHdr::len', 'slice::<impl [T]>::len')) for x in src_calls(ss)), 'msg_len + hdr.len() <= mtu (or msg_len <= payload.len())',
                      'the SDU length is compared with the bare mtu: an SDU of mtu - header < length <= mtu, which the sender legitimately splits in two segments, is refused', ra.where(c[0]))
+        # "an acknowledgement sent before the acknowledgement deadline": the deadline runs from the OLDEST segment that is still
+        # unacknowledged - received_at is stamped when ack_level goes from 0 to 1 and not moved by the segments that follow (or each
+        # arrival pushes the deadline of the earlier ones out by a full time-out)
+        stamps = [i for i, j, st in ra.field_writes('received_at:' + S + 'RecvWindow')]
+        R.floor('writes of RecvWindow.received_at in accept_incoming', len(stamps), 1)
+
+        def first_unacked():
+            e = set()
+            isl = lambda s_: mentions(s_, 'ack_level')
+            zero = lambda s_: 0 in src_consts(s_)
+            for bb, te, fe in prims.cmp_guard_edges(ra, 'Eq', isl, zero):
+                e |= te
+            for bb, te, fe in prims.cmp_guard_edges(ra, 'Ne', isl, zero):
+                e |= fe
+            for bb, te, fe in prims.cmp_guard_edges(ra, 'Gt', isl, zero, symmetric=False):
+                e |= fe
+            if not e:
+                from facts import GuardMissing
+                raise GuardMissing(f'{ra.fn}: received_at is stamped without a test of ack_level against 0')
+            return e
+        R.cut('P2', ra, 'restart the acknowledgement deadline (received_at <- now)', stamps, 'no earlier segment is still unacknowledged (ack_level == 0)', first_unacked)
+        # the last free slot of the send window is kept for a segment that can carry an acknowledgement - judged by the same
+        # RecvWindow::pending_ack() that decides whether the segment WILL carry one (pending_ack is None while a complete SDU waits to be
+        # fetched; testing the raw ack_level there lets both ends spend their last slot on ACK-less segments and dead-lock)
+        isf = R.body(S + 'SendWindow::is_full')
+        raw = prims.field_read_locals(isf, 'ack_level:' + S + 'RecvWindow')
+        R.expect('P5', isf.fn, 'the last send-window slot is reserved by the same test that attaches the acknowledgement (RecvWindow::pending_ack)',
+                 S + 'RecvWindow::pending_ack' in isf.calls_summary and not raw, 'level == 1 && recv_window.pending_ack().is_none()',
+                 ('is_full reads RecvWindow.ack_level directly' if raw else 'is_full does not consult RecvWindow::pending_ack') + ': with a complete SDU waiting to be fetched pending_ack() is None, the segment '
+                 'sent in the last slot carries no ACK, and two ends that both do so can never acknowledge each other again')
         ci = R.body(S + 'RecvWindow::check_data_integrity')
         seq = [t for t in ci.calls('core::num::<impl u8>::wrapping_add')] + [t for b in F.nested(ci.fn) for t in b.calls('core::num::<impl u8>::wrapping_add')]
         okseq = False
